@@ -164,6 +164,9 @@ COMMAND_CORPUS = [
     ["let y = 1", "y = nosuch", ":forget_local y", "fun nosuch() { 2 }", ":resume", ":abort", "40 + 2"],
     ["struct P { x: Int }", "P{ x: nosuch }", ":skip", ":abort", "40 + 2"],
     ["assert(nosuch == 1)", ":skip", ":resume", ":abort", "40 + 2"],
+    # a command argument whose evaluation stays suspended, then a shorter command argument, then the first one goes on
+    ["let x = 5", ":type dbg(x.len())", ":replace \"hi\"", "1 + 1", ":type 1 + 1", "40 + 2"],
+    ["let y = 5", ":replace dbg(y.nosuch_method_with_a_long_name())", ":replace 7", ":type 1", ":resume", ":abort", "40 + 2"],
     ["1 + 1", ":replace 5", ":replace", ":resume", ":abort", ":skip", ":forget_local x", ":forget nosuch", ":test nosuch", ":type", ":type 1 +", "fun f() { throw(\"x\") }", "f()", ":skip", ":skip", ":skip", ":replace 7", ":resume", ":abort", "40 + 2"],
 ]
 BOUNDED = [
@@ -236,6 +239,51 @@ for _fn, _fi, _fb in findings.C09_SESSIONS:
     BOUNDED.append({"name": _fn, "kind": "session-alive", "props": ["C09"], "input": [_fi], "n_inputs": 1, "bound": _fb + ": every request answered, no panic, 40 + 2 answered with 42", "expect": {}})
 
 
+def _vfs_append_only(u, props):
+    """Positions kept in suspended frames, in values and in diagnostics name a (path, version) of the Vfs and are
+    later used to slice that version's text (Vfs::pos_src, format_diagnostic).  That is only safe while a version,
+    once stored, is never replaced or dropped: the only code that changes `file_srcs` is Vfs::insert, and insert
+    only appends a version (`entry(..).or_default()` then `push`)."""
+    import glob
+    from gen import Tag
+    from extract import skeleton_hash
+    VFS = "src/parser/vfs.rs"
+    src = u.source(VFS)
+    ins = src.find_fn("insert", impl="Vfs")
+    body = ins.text
+    # inside insert: the map is touched once, through entry().or_default(), and the version list only grows
+    bad_inside = 0
+    touches = re.findall(r"\bfile_srcs\b\s*\.\s*(\w+)", body)
+    if touches != ["entry"]:
+        bad_inside += 1
+    if not re.search(r"\.entry\([^;]*\)\s*\.\s*or_default\(\)", body):
+        bad_inside += 1
+    if re.search(r"\bsrcs\s*\.\s*(?!push\b|len\b)\w+\s*\(|\*\s*srcs\s*=|\bsrcs\s*\[", body):
+        bad_inside += 1
+    # outside insert: nothing under src/ writes file_srcs
+    wr = re.compile(r"\bfile_srcs\b\s*(\.\s*(insert|remove|clear|retain|extend|drain|entry|get_mut|values_mut|iter_mut|remove_entry)\s*\(|=[^=])|&mut\s+[\w.()]*\bfile_srcs\b")
+    repo_src = os.path.dirname(os.path.dirname(src.path))
+    outside = []
+    for fp in sorted(glob.glob(os.path.join(repo_src, "**", "*.rs"), recursive=True)):
+        text = open(fp, encoding="utf-8").read()
+        for m in wr.finditer(text):
+            if os.path.abspath(fp) == os.path.abspath(src.path) and ins.start <= m.start() < ins.end:
+                continue
+            outside.append("%s:%d" % (os.path.relpath(fp, os.path.dirname(repo_src)), text.count("\n", 0, m.start()) + 1))
+    for (sname, n, clause, text) in (
+            ("vfs_insert_only_appends_a_version", bad_inside, "post[existing_versions_are_kept]", "Vfs::insert reaches file_srcs through entry(..).or_default() and only pushes onto the version list"),
+            ("vfs_versions_have_no_other_writer", len(outside), "post[only_insert_writes_file_srcs]", "no code under src/ other than Vfs::insert writes Vfs.file_srcs" + (": " + ", ".join(outside[:4]) if outside else ""))):
+        u.fn_props[sname] = props
+        u.skeletons[sname] = skeleton_hash(body)
+        u.items.append({"name": "Vfs::insert (%s)" % sname.replace("_", " "), "generated_as": sname, "kind": "structural", "where": ins.where,
+                        "sha256_16": ins.sha(), "skeleton": u.skeletons[sname]})
+        tag = Tag("repo", fn=sname, repo_file=VFS, repo_line=ins.line0, props=props)
+        u.emit("pub fn %s() -> (n: u64)" % sname, tag)
+        u.emit("    ensures n == 0,", Tag("repo", fn=sname, clause=clause, repo_file=VFS, repo_line=ins.line0, props=props))
+        u.emit("{ %d }" % n, tag)
+        u.clauses.append(("session.%s.%s" % (sname, clause), props, text))
+
+
 def build(tier):
     u = UnitFile("session")
     u.raw(common.HEADER)
@@ -285,6 +333,7 @@ def build(tier):
                   "responses@ == responses0 + (if parsed_request(req_src) matches Ok(Request::Interrupt) { 0nat } else { 1nat })")],
         ret="responses",
         props=c09))
+    _vfs_append_only(u, c09)
     u.add_canary_proof()
     u.raw(common.FOOTER)
     return u
